@@ -995,6 +995,8 @@ var ColorNames = map[string]Color{
 	"lightgrey":            ColorLightGray,
 	"lightslategrey":       ColorLightSlateGray,
 	"slategrey":            ColorSlateGray,
+	"cyan":                 ColorAqua,
+	"magenta":              ColorFuchsia,
 }
 
 // Valid indicates the color is a valid value (has been set).
